@@ -106,9 +106,11 @@ CHECKS.update({
     "C14": dict(cat="fault_enumeration", ref="DESIGN §8 C14, App. A.6",
                 text="Crash safety of TdMpsJob.dump_dict proved over a ghost file-system model from EVERY admissible directory state (pyvc: invariant obligation at each "
                      "file-system call and inside np.savez; counter-models replayed by fault injection into the real function) and cross-validated by exhaustive fault "
-                     "enumeration on the real code incl. restarts and swallowed IOErrors; exact bitwise dump/load round trips for Mps, MpDm, Mpo, TTNS and the spill-to-disk path.",
-                technique="contract-based deductive verification of the crash protocol (pyvc ghost file system, z3) + exhaustive fault enumeration of the real function; runtime round-trip contracts",
-                note=OTHER_NOTE + " Trusted: POSIX atomicity of remove/rename/replace; np.savez leaves an unreadable file when interrupted."),
+                     "enumeration on the real code incl. restarts and swallowed IOErrors; Engine S with a file-layer stub: load(dump(x)) == x for indeterminate tensors and prefactor "
+                     "(Mps, MpDm, Mpo, TTNS incl. other_attrs); exact bitwise dump/load round trips on real files for Mps, MpDm, Mpo, TTNS and the spill-to-disk path.",
+                technique="contract-based deductive verification of the crash protocol (pyvc ghost file system, z3) + exhaustive fault enumeration of the real function; exact symbolic "
+                          "execution of dump/load over an in-memory npz layer; runtime round-trip contracts",
+                note=OTHER_NOTE + " Trusted: POSIX atomicity of remove/rename/replace; np.savez leaves an unreadable file when interrupted; np.savez/np.load return arrays unchanged (Engine S file stub)."),
     "C15": dict(cat="other", ref="DESIGN §8 C15, S.2",
                 text="Engine S: the real Op / OpSum arithmetic (+, -, *, scalar multiples, negation, Op.product, OpSum products, squeeze_identity, associativity) executed on "
                      "leaf operators with indeterminate factors; the exact denotation of each of ~1000 expression shapes equals the expression of the operand denotations as "
@@ -202,7 +204,7 @@ def main():
             {"name": "pyvc", "path": "vk/pyvc", "serves_properties": ["C02", "C03", "C04", "C05", "C06", "C14", "C16", "C17", "C20"], "kind_free_text": "AST -> verification conditions (loop invariants, call by contract) -> z3/cvc5"},
             {"name": "exact-exec", "path": "vk/symx/exactexec.py", "serves_properties": ["C16", "C19"], "kind_free_text": "real source executed on exact rationals / z3 reals"},
             {"name": "effects", "path": "vk/pyvc/effects.py", "serves_properties": ["C13"], "kind_free_text": "alias / effect analysis of the real source against sidecar modifies clauses"},
-            {"name": "symx", "path": "vk/symx", "serves_properties": ["C01", "C02", "C03", "C04", "C06", "C07", "C08", "C09", "C10", "C11", "C12", "C15", "C18"], "kind_free_text": "real NumPy-level code executed on exact symbolic polynomial scalars; identities decided by normal form"},
+            {"name": "symx", "path": "vk/symx", "serves_properties": ["C01", "C02", "C03", "C04", "C06", "C07", "C08", "C09", "C10", "C11", "C12", "C14", "C15", "C18"], "kind_free_text": "real NumPy-level code executed on exact symbolic polynomial scalars; identities decided by normal form"},
             {"name": "rtc", "path": "vk/rtc", "serves_properties": ["C01", "C02", "C03", "C04", "C05", "C06", "C07", "C08", "C09", "C10", "C11", "C12", "C13", "C14", "C15", "C16", "C17", "C18", "C20"], "kind_free_text": "runtime contracts on the real functions, bounded-exhaustive inputs (bounded stand-in, never counted as proved)"},
         ],
         "checks": checks,
